@@ -39,7 +39,7 @@ def plan(tier, seed):
 def mandatory_bins(tier):
     b = ["tagtype_%02x" % t for t in R.TAGTYPES] + ["ignored_%02x" % t for t in R.IGNORED]
     b += ["fmt_blob", "fmt_bf2compatible", "fmt_memoryimage", "page_crossing", "group_per_page", "one_group_all_pages", "debug_firmware", "release_firmware", "no_firmware_comment",
-          "multi_group_filter", "special_case_filter", "crc", "reboot", "versiondesc", "line_checksum_byte", "enforce_off_without_marker", "filter_comment_checked", "five_sections", "image_ge_64k", "source_is_a_file_name"]
+          "multi_group_filter", "special_case_filter", "crc", "reboot", "versiondesc", "line_checksum_byte", "enforce_off_without_marker", "filter_comment_checked", "five_sections", "image_ge_64k", "source_is_a_file_name", "stream_positioned_after_other_content"]
     b += ["reject:" + c for c in REJECT_CLASSES] + ["mem_gap_before_last_line", "mem_many_extents"]
     return b
 
@@ -216,6 +216,13 @@ def import_case(ns, ctx, text, header, sections, rp, enforce=True, must_reject=N
             fh.write(text)
         src = path
         ctx.bin("source_is_a_file_name")
+    elif len(text) % 8 == 5:
+        src = io.StringIO()
+        src.write("##Firmware: 9999 earlier content of the same stream\n:0000FE00\n")
+        start = src.tell()
+        src.write(text)
+        src.seek(start)
+        ctx.bin("stream_positioned_after_other_content")
     try:
         try:
             res = BF.Bf3File.bf2_import(src, enforce) if not enforce or ctx.rng.random() < 0.5 else BF.Bf3File.bf2_import(src)
